@@ -5,7 +5,9 @@ import (
 	"io"
 	"runtime"
 	"strings"
+	"sync"
 	"sync/atomic"
+	"time"
 
 	"github.com/streamingfast/dstore"
 )
@@ -27,6 +29,123 @@ var RacesDecided int64
 type raceStore struct {
 	dstore.Store
 	fullWins bool
+	sub      string       // path below the tagged store ("<module hash>/states")
+	late     *lateLoaders // non-nil: the losing full-snapshot load is not abandoned, it completes late (see lateLoaders)
+}
+
+// lateLoaders models the third outcome of the load race: the partial wins, and the losing goroutine - already reading
+// the full snapshot, a read that the winner's cancel does not interrupt - finishes *later*: getStore then writes the
+// module's in-memory store and its block label while the squasher has moved on. The load is parked inside OpenObject
+// and released at the one point where the write lands between two steps of a later merge of the same module: when that
+// merge (which already fetched its base store) opens its own partial. The release waits until the parked load's write
+// goroutine has ended (it ends right after getStore returned), so the placement is deterministic.
+type lateLoaders struct {
+	mu        sync.Mutex
+	parked    map[string][]*parkedLoad // by substore path
+	Released  int64
+	Unsettled int64 // releases whose effect did not become visible within the settle limit (the race was not placed)
+	closed    bool
+}
+
+type parkedLoad struct {
+	name    string
+	gid     string        // "goroutine N " of the loading goroutine: it ends right after getStore returned
+	release chan bool     // true: complete the load; false: the world is being torn down
+	closed  chan struct{} // closed when the loader has read the object and closed its reader
+}
+
+// signalCloser tells when the loader is done reading.
+type signalCloser struct {
+	io.ReadCloser
+	once sync.Once
+	ch   chan struct{}
+}
+
+func (s *signalCloser) Close() error {
+	err := s.ReadCloser.Close()
+	s.once.Do(func() { close(s.ch) })
+	return err
+}
+
+func goroutineID() string {
+	buf := make([]byte, 64)
+	buf = buf[:runtime.Stack(buf, false)]
+	f := strings.Fields(string(buf))
+	if len(f) < 2 {
+		return ""
+	}
+	return "goroutine " + f[1] + " "
+}
+
+func goroutineAlive(gid string) bool {
+	buf := make([]byte, 1<<20)
+	for {
+		n := runtime.Stack(buf, true)
+		if n < len(buf) {
+			buf = buf[:n]
+			break
+		}
+		buf = make([]byte, 2*len(buf))
+	}
+	return strings.HasPrefix(string(buf), gid) || strings.Contains(string(buf), "\n"+gid)
+}
+
+func (l *lateLoaders) park(sub, name string) (*parkedLoad, bool) {
+	p := &parkedLoad{name: name, release: make(chan bool, 1), gid: goroutineID(), closed: make(chan struct{})}
+	l.mu.Lock()
+	if l.closed {
+		l.mu.Unlock()
+		return p, false
+	}
+	l.parked[sub] = append(l.parked[sub], p)
+	l.mu.Unlock()
+	return p, <-p.release
+}
+
+// releaseEarlier completes the parked loads of sub that belong to an earlier segment than name and waits for their effect.
+func (l *lateLoaders) releaseEarlier(sub, name string) {
+	l.mu.Lock()
+	var rel, keep []*parkedLoad
+	for _, p := range l.parked[sub] {
+		if p.name[:10] < name[:10] {
+			rel = append(rel, p)
+		} else {
+			keep = append(keep, p)
+		}
+	}
+	l.parked[sub] = keep
+	l.mu.Unlock()
+	for _, p := range rel {
+		p.release <- true
+		atomic.AddInt64(&l.Released, 1)
+		// the loading goroutine ends right after getStore returned (one buffered channel send later): once it is gone,
+		// whatever it writes to the module state has been written
+		deadline := time.Now().Add(5 * time.Second)
+		select {
+		case <-p.closed: // the object has been read; what remains is decoding and getStore's two assignments
+		case <-time.After(5 * time.Second):
+		}
+		for p.gid != "" && goroutineAlive(p.gid) {
+			if time.Now().After(deadline) {
+				atomic.AddInt64(&l.Unsettled, 1)
+				break
+			}
+			runtime.Gosched()
+			time.Sleep(200 * time.Microsecond)
+		}
+	}
+}
+
+func (l *lateLoaders) close() {
+	l.mu.Lock()
+	l.closed = true
+	for _, ps := range l.parked {
+		for _, p := range ps {
+			p.release <- false
+		}
+	}
+	l.parked = map[string][]*parkedLoad{}
+	l.mu.Unlock()
 }
 
 func (r *raceStore) SubStore(p string) (dstore.Store, error) {
@@ -34,7 +153,11 @@ func (r *raceStore) SubStore(p string) (dstore.Store, error) {
 	if err != nil {
 		return nil, err
 	}
-	return &raceStore{Store: s, fullWins: r.fullWins}, nil
+	sub := p
+	if r.sub != "" {
+		sub = r.sub + "/" + p
+	}
+	return &raceStore{Store: s, fullWins: r.fullWins, sub: sub, late: r.late}, nil
 }
 
 // sibling reports whether a file with the same end block and the given suffix exists next to name.
@@ -61,9 +184,27 @@ func (r *raceStore) OpenObject(ctx context.Context, name string) (io.ReadCloser,
 			<-ctx.Done()
 			return nil, ctx.Err()
 		}
+	case strings.HasSuffix(name, ".partial") && r.late != nil:
+		if len(name) > 10 {
+			r.late.releaseEarlier(r.sub, name)
+		}
 	case strings.HasSuffix(name, ".kv") && !r.fullWins:
 		if inLoadRace() && r.sibling(ctx, name, ".partial") {
 			atomic.AddInt64(&RacesDecided, 1)
+			// only a load that has something to read can complete late: a snapshot that does not exist yet answers
+			// "not found" at once, and the retry that follows sleeps on the cancelled context
+			if exists, _ := r.Store.FileExists(ctx, name); r.late != nil && len(name) > 10 && exists {
+				p, ok := r.late.park(r.sub, name)
+				if !ok {
+					return nil, context.Canceled
+				}
+				rc, err := r.Store.OpenObject(context.Background(), name) // the read was in flight: the cancel does not stop it
+				if err != nil {
+					close(p.closed)
+					return nil, err
+				}
+				return &signalCloser{ReadCloser: rc, ch: p.closed}, nil
+			}
 			<-ctx.Done()
 			return nil, ctx.Err()
 		}
